@@ -284,7 +284,7 @@ func (g *engine) step() {
 		b = a
 	default:
 		op = "Rerepresent"
-		kind := rng.Intn(6)
+		kind := rng.Intn(NumRepKinds)
 		g.log(fmt.Sprintf("e%d = rerepresent(e%d, kind %d)", d, a, kind))
 		g.e[d] = Rerepresent(&g.e[a], kind, rng)
 		g.sh[d] = sa
